@@ -646,6 +646,54 @@ C08_SCENARIO(f_server_closecb_rawthis)
   delete peer;
 }
 
+// Two io-loop threads of one TcpServer each receive a burst larger than their connection's input buffer has room for
+// (1024 bytes initially): Buffer::readFd spills into its 64 KiB extrabuf.  The two threads never synchronise with each
+// other; nothing they touch is shared - unless extrabuf has static storage.
+namespace
+{
+void onMessageDiscard(const TcpConnectionPtr&, Buffer* buf, Timestamp) { buf->retrieveAll(); }
+void serverInitMT2(EventLoop* loop)
+{
+  g_server = new TcpServer(loop, InetAddress("127.0.0.1", static_cast<uint16_t>(g_port)), "c08srv");
+  g_server->setConnectionCallback(onConnection);
+  g_server->setMessageCallback(onMessageDiscard);
+  g_server->setThreadNum(2);
+  g_server->start();
+}
+void* burstPeer(void*)
+{
+  int fd = c08::raw_connect(g_port);
+  if (fd < 0) return NULL;
+  std::string chunk(32 * 1024, 'b');
+  for (int i = 0; i < 12; ++i)
+  {
+    if (::send(fd, chunk.data(), chunk.size(), MSG_NOSIGNAL) < 0) break;
+    ::usleep(3000);
+  }
+  ::usleep(30 * 1000);
+  ::close(fd);
+  return NULL;
+}
+}  // namespace
+
+C08_SCENARIO(io_threads_read_burst)
+{
+  g_port = c08::pick_port();
+  LoopHost* host = new LoopHost(serverInitMT2, serverFini);
+  pthread_t a, b;
+  pthread_create(&a, NULL, burstPeer, NULL);
+  pthread_create(&b, NULL, burstPeer, NULL);      // round-robin: the second connection lands on the other io loop
+  pthread_join(a, NULL);
+  pthread_join(b, NULL);
+  for (int i = 0; i < 300 && g_down.load() < 2; ++i) ::usleep(1000);
+  sleep_ms(30);
+  {
+    MutexLockGuard lock(g_mu);
+    g_conn.reset();
+  }
+  delete host;
+}
+
 // F-11: TcpClient::connect_ is stored by disconnect() callers and read by the loop in removeConnection
 C08_SCENARIO(client_disconnect_flag_vs_loop)
 {
